@@ -78,7 +78,13 @@ def make_case(ctx, g):
             attrs.append((w.qname(ns.prefix, ns.uri, "lit"), w.qname(ns.prefix, ns.uri, "chart")))
         w.new_record(c, "Entity", w.qname(ns.prefix, ns.uri, "qnlit%d" % g.rng.randint(0, 9)), attrs)
         flags.add("xsd:QName-literal")
-    if len(scopes) > 1:
+    if g.chance(0.15):
+        # part of the document arrives from another one (update() is a construction route like any other): records and whole
+        # bundles of a document with namespaces of its own, possibly binding the same prefixes differently
+        o, _so = b.random_document(n_records=g.rng.randint(1, 4))
+        if w.update(d, o) is None:
+            flags.add("arrived-by-update")
+    if len(scopes) > 1 or list(doc.bundles):
         flags.add("bundles")
     if any(c.get_default_namespace() is not None for c in [doc] + list(doc.bundles)):
         flags.add("default-ns")
